@@ -337,6 +337,8 @@ struct Pending {
   Cmd cmd;
   uint64_t issued{0};
   int pre_released_lock{-1};
+  int pre_released_mode{-1};
+  uint32_t pre_old_ver{0}, pre_new_ver{0};
 };
 
 template <class L>
@@ -818,8 +820,44 @@ class Controller
       }
       default: break;
     }
+    CheckWordAfterExclusiveRelease(t, c, what);
     pend_[t].pre_released_lock = -1;
+    pend_[t].pre_released_mode = -1;
     CheckBools(t, r, what);
+  }
+
+  // C09: right after an exclusive grant ended, with nothing else going on, the lock word must consist of the
+  // published version and the mode state the model expects (OptimisticLock: bits 0-31 version, bits 32-61 shared
+  // count, bit 62 SIX, bit 63 X - the layout named in the property's own anchors)
+  void
+  CheckWordAfterExclusiveRelease(int t, const Cmd &c, const std::string &what)
+  {
+    if constexpr (T::kOpt) {
+      const int k = pend_[t].pre_released_lock;
+      if (k < 0 || pend_[t].pre_released_mode != kX) return;
+      for (int u = 0; u < kVT; ++u) {
+        if (pend_[u].active) return;  // something else may be changing the word
+      }
+      const auto word = reinterpret_cast<std::atomic<uint64_t> *>(&locks_[k])->load(std::memory_order_acquire);
+      const uint64_t expect_mode = (static_cast<uint64_t>(ml_[k].nS) << 32) | (ml_[k].nSIX ? (1ULL << 62) : 0) | (ml_[k].nX ? (1ULL << 63) : 0);
+      const uint32_t nv = pend_[t].pre_new_ver, ov = pend_[t].pre_old_ver;
+      const char *vc = (ov == 0xFFFFFFFFU) ? "wrap-around" : ((nv == 0 || nv == 0xFFFFFFFFU || nv == 0x80000000U || nv == 0x7FFFFFFFU) ? "extreme-value" : "ordinary-value");
+      if ((word >> 32) != (expect_mode >> 32)) {
+        Fail("C09", Fmt("lock-mode-state-disturbed-after-publishing-version:%s", vc),
+             Fmt("after '%s' ended an exclusive grant that began at version %u and published %u, the lock word is %016" PRIx64
+                 " but the model expects mode bits %08" PRIx64 " (S:%d SIX:%d X:%d)",
+                 what.c_str(), ov, nv, word, expect_mode >> 32, ml_[k].nS, ml_[k].nSIX, ml_[k].nX));
+      } else if (static_cast<uint32_t>(word) != nv) {
+        Fail("C09", Fmt("published-version-differs-from-requested:%s", vc),
+             Fmt("after '%s' ended an exclusive grant that began at version %u the lock carries version %u, expected %u", what.c_str(), ov,
+                 static_cast<uint32_t>(word), nv));
+      }
+      sigs_.insert(Fmt("opt:x-release-word-check:%s:%s", kOpKNames[c.op], vc));
+    } else {
+      (void)t;
+      (void)c;
+      (void)what;
+    }
   }
 
   // after an asynchronously completed X acquisition the current version is known exactly
@@ -990,9 +1028,13 @@ class Controller
   PreIssue(int t, const Cmd &c, uint64_t now)
   {
     pend_[t].pre_released_lock = -1;
+    pend_[t].pre_released_mode = -1;
     auto pre = [&](MSlot &m) {
       if (m.own) {
         pend_[t].pre_released_lock = m.lock;
+        pend_[t].pre_released_mode = m.mode;
+        pend_[t].pre_old_ver = m.old_ver;
+        pend_[t].pre_new_ver = m.new_ver;
         PreRelease(t, m, now);
       }
     };
@@ -1008,6 +1050,9 @@ class Controller
         if (m.own) {
           // X -> SIX: the model shows SIX from now on; the version is published by the downgrade
           pend_[t].pre_released_lock = m.lock;
+          pend_[t].pre_released_mode = kX;
+          pend_[t].pre_old_ver = m.old_ver;
+          pend_[t].pre_new_ver = m.new_ver;
           AddHolder(m.lock, kX, -1, t);
           AddHolder(m.lock, kSIX, +1, t, now, true);
           if (T::kOpt) ml_[m.lock].vers.push_back({m.new_ver, now, 0});
